@@ -75,6 +75,21 @@ let loads_model c pad inp =
     Buffer.add_char b ';') ls;
   Buffer.contents b
 
+let fk s = if s = "M" then FMissing else if s = "P" then FPlain else FWenc (nat_of_int (int_of_string (String.sub s 1 (String.length s - 1))))
+let tok_of_string s =
+  match String.split_on_char ':' s with
+  | ["e"] -> T_e | ["d"] -> T_d | ["v"] -> T_v | ["V"] -> T_V | ["h"] -> T_h | ["n"] -> T_n
+  | ["i"; l; d; f] -> T_i (l = "1", d = "1", fk f)
+  | ["o"; b] -> T_o (b = "1")
+  | ["k"; "I"] -> T_k KInvalid
+  | ["k"; v] -> T_k (KValid (nat_of_int (int_of_string (String.sub v 1 (String.length v - 1)))))
+  | ["c"; n] -> T_cmode (z_of_int (int_of_string n))
+  | ["m"; n] -> T_hmode (z_of_int (int_of_string n))
+  | _ -> T_other
+let cpak_string (p : Model.cpak) =
+  Printf.sprintf "PAK mode=%d ctype=%d htype=%d fp=%d out=%d key=%s no_echo=%d" (int_of_z p.c_mode) (int_of_z p.c_ctype) (int_of_z p.c_htype)
+    (if p.c_fp then 1 else 0) (if p.c_out then 1 else 0) (match p.c_key with Some k -> hex k | None -> "NULL") (if p.c_no_echo then 1 else 0)
+
 let handle_src (w : Stdlib.String.t list) : Stdlib.String.t =
   match w with
   | ["aes"; d; k; b] -> sres_bytes (Model.src_aes (d = "e") (unhex k) (unhex b))
@@ -121,6 +136,9 @@ let handle_src (w : Stdlib.String.t list) : Stdlib.String.t =
       (match Model.src_verify (hbuf ()) (nat_of_int (int_of_string t)) (unhex f) (unhex k) with
        | SOk c -> if int_of_n c = 0 then "OK -" else "FAIL " ^ string_of_int (int_of_n c)
        | SErr w -> "ERR " ^ coqstr w)
+  | "clip" :: toks ->
+      (match Model.src_cli_parse (List.map tok_of_string (List.filter (fun x -> x <> "") toks)) with
+       | SOk None -> "NULL" | SOk (Some p) -> cpak_string p | SErr w -> "ERR " ^ coqstr w)
   | ["hdr"; t; cm; hm; k; seed] ->
       sres_bytes (Model.src_header (hbuf ()) (nat_of_int (int_of_string t)) (n_of_int (int_of_string cm)) (n_of_int (int_of_string hm)) (unhex k) (unhex seed))
   | _ -> "?"
@@ -233,6 +251,9 @@ let handle (w : Stdlib.String.t list) : Stdlib.String.t =
            Printf.sprintf "%s enabled=%d crashed=%s out=%s log=%s"
              (if Model.terminal st then "TERMINAL" else "RUNNING") (int_of_nat (Model.enabled_count Model.tag_tr Model.tag_event (buf ()) pad st))
              (match Model.crashed st with None -> "-" | Some w -> string_of_int (int_of_nat w)) (hex out) (Buffer.contents b))
+  | "clip" :: toks ->
+      (match Model.cli_parse (List.map tok_of_string (List.filter (fun x -> x <> "") toks)) with
+       | None -> "NULL" | Some p -> cpak_string (Model.abs_pak p))
   | "cli" :: toks ->
       let fk s = if s = "M" then FMissing else if s = "P" then FPlain else FWenc (nat_of_int (int_of_string (String.sub s 1 (String.length s - 1)))) in
       let tok s =
